@@ -16,6 +16,8 @@
 #ifndef ROMEA_CORE_COMMON__CONTAINERS__GRID__WRAPPABLEGRID_HPP_
 #define ROMEA_CORE_COMMON__CONTAINERS__GRID__WRAPPABLEGRID_HPP_
 
+#include <cstdint>
+
 #include "romea_core_common/containers/grid/Grid.hpp"
 
 namespace romea
@@ -48,6 +50,8 @@ protected:
   CellIndexes wrapCellIndexes_(const CellIndexes & cellIndexes) const;
 
   size_t computeCellLinearIndex_(const CellIndexes & CellIndexes) const override;
+
+  static size_t accumulateIndexOffset_(size_t currentOffset, int indexOffset, size_t numberOfCells);
 
 protected:
   CellIndexes indexOffsetsAlongAxes_;
@@ -93,6 +97,16 @@ template<typename T, size_t DIM>
 size_t WrappableGrid<T, DIM>::computeCellLinearIndex_(const CellIndexes & cellIndexes) const
 {
   return wrapCellIndexes_(cellIndexes).dot(this->indexCoefficients_);
+}
+
+//-----------------------------------------------------------------------------
+template<typename T, size_t DIM>
+size_t WrappableGrid<T, DIM>::accumulateIndexOffset_(
+  size_t currentOffset, int indexOffset, size_t numberOfCells)
+{
+  const int64_t n = static_cast<int64_t>(numberOfCells);
+  const int64_t offset = (static_cast<int64_t>(currentOffset) + indexOffset % n + n) % n;
+  return static_cast<size_t>(offset);
 }
 
 //-----------------------------------------------------------------------------
@@ -143,25 +157,25 @@ void WrappableGrid<T, DIM>::translate(
     // translation along X
     if (indexOffsetAlongXAxis) {
       for (yIndex = 0; yIndex < numberOfCellsAlongYAxis; yIndex++) {
-        xIndex = indexOffsetsAlongAxes_[0];
+        xIndex = 0;
         for (int xOffset = 0; xOffset < indexOffsetAlongXAxis; xOffset++) {
           this->buffer_[computeCellLinearIndex_(cellIndexes)] = emptyValue;
           xIndex = (xIndex + 1) % numberOfCellsAlongXAxis;
         }
 
-        xIndex = indexOffsetsAlongAxes_[0];
+        xIndex = 0;
         for (int xOffset = 0; xOffset > indexOffsetAlongXAxis; xOffset--) {
           xIndex = (xIndex + numberOfCellsAlongXAxisMinusOne) % numberOfCellsAlongXAxis;
           this->buffer_[computeCellLinearIndex_(cellIndexes)] = emptyValue;
         }
       }
-      indexOffsetsAlongAxes_[0] = (numberOfCellsAlongXAxis + indexOffsetAlongXAxis) %
-        numberOfCellsAlongXAxis;
+      indexOffsetsAlongAxes_[0] = accumulateIndexOffset_(
+        indexOffsetsAlongAxes_[0], indexOffsetAlongXAxis, numberOfCellsAlongXAxis);
     }
 
     // translation along Y
     if (indexOffsetAlongYAxis) {
-      yIndex = indexOffsetsAlongAxes_[1];
+      yIndex = 0;
       for (int yOffset = 0; yOffset < indexOffsetAlongYAxis; yOffset++) {
         for (xIndex = 0; xIndex < numberOfCellsAlongXAxis; xIndex++) {
           this->buffer_[computeCellLinearIndex_(cellIndexes)] = emptyValue;
@@ -176,8 +190,8 @@ void WrappableGrid<T, DIM>::translate(
         }
       }
 
-      indexOffsetsAlongAxes_[1] = (numberOfCellsAlongYAxis + indexOffsetAlongYAxis) %
-        numberOfCellsAlongYAxis;
+      indexOffsetsAlongAxes_[1] = accumulateIndexOffset_(
+        indexOffsetsAlongAxes_[1], indexOffsetAlongYAxis, numberOfCellsAlongYAxis);
     }
   } else {
     CellIndexes cellIndexes;
@@ -201,26 +215,27 @@ void WrappableGrid<T, DIM>::translate(
     if (indexOffsetAlongXAxis) {
       for (zIndex = 0; zIndex < numberOfCellsAlongZAxis; zIndex++) {
         for (yIndex = 0; yIndex < numberOfCellsAlongYAxis; yIndex++) {
-          xIndex = indexOffsetsAlongAxes_[0];
+          xIndex = 0;
           for (int xOffset = 0; xOffset < indexOffsetAlongXAxis; xOffset++) {
             this->buffer_[computeCellLinearIndex_(cellIndexes)] = emptyValue;
             xIndex = (xIndex + 1) % numberOfCellsAlongXAxis;
           }
 
+          xIndex = 0;
           for (int xOffset = 0; xOffset > indexOffsetAlongXAxis; xOffset--) {
             xIndex = (xIndex + numberOfCellsAlongXAxisMinusOne) % numberOfCellsAlongXAxis;
             this->buffer_[computeCellLinearIndex_(cellIndexes)] = emptyValue;
           }
         }
       }
-      indexOffsetsAlongAxes_[0] = (numberOfCellsAlongXAxis + indexOffsetAlongXAxis) %
-        numberOfCellsAlongXAxis;
+      indexOffsetsAlongAxes_[0] = accumulateIndexOffset_(
+        indexOffsetsAlongAxes_[0], indexOffsetAlongXAxis, numberOfCellsAlongXAxis);
     }
 
     // translation along Y
     if (indexOffsetAlongYAxis) {
       for (zIndex = 0; zIndex < numberOfCellsAlongZAxis; zIndex++) {
-        yIndex = indexOffsetsAlongAxes_[1];
+        yIndex = 0;
         for (int yOffset = 0; yOffset < indexOffsetAlongYAxis; yOffset++) {
           for (xIndex = 0; xIndex < numberOfCellsAlongXAxis; xIndex++) {
             this->buffer_[computeCellLinearIndex_(cellIndexes)] = emptyValue;
@@ -236,13 +251,13 @@ void WrappableGrid<T, DIM>::translate(
           }
         }
       }
-      indexOffsetsAlongAxes_[1] = (numberOfCellsAlongYAxis + indexOffsetAlongYAxis) %
-        numberOfCellsAlongYAxis;
+      indexOffsetsAlongAxes_[1] = accumulateIndexOffset_(
+        indexOffsetsAlongAxes_[1], indexOffsetAlongYAxis, numberOfCellsAlongYAxis);
     }
 
     // translation along Z
     if (indexOffsetAlongZAxis) {
-      zIndex = indexOffsetsAlongAxes_[2];
+      zIndex = 0;
 
       for (int zOffset = 0; zOffset < indexOffsetAlongZAxis; zOffset++) {
         for (yIndex = 0; yIndex < numberOfCellsAlongYAxis; yIndex++) {
@@ -253,7 +268,8 @@ void WrappableGrid<T, DIM>::translate(
         zIndex = (zIndex + 1) % numberOfCellsAlongZAxis;
       }
 
-      for (int zOffset = 0; zOffset < indexOffsetAlongZAxis; zOffset++) {
+      zIndex = 0;
+      for (int zOffset = 0; zOffset > indexOffsetAlongZAxis; zOffset--) {
         zIndex = (zIndex + numberOfCellsAlongZAxisMinusOne) % numberOfCellsAlongZAxis;
 
         for (yIndex = 0; yIndex < numberOfCellsAlongYAxis; yIndex++) {
@@ -262,8 +278,8 @@ void WrappableGrid<T, DIM>::translate(
           }
         }
       }
-      indexOffsetsAlongAxes_[2] = (numberOfCellsAlongZAxis + indexOffsetAlongZAxis) %
-        numberOfCellsAlongZAxis;
+      indexOffsetsAlongAxes_[2] = accumulateIndexOffset_(
+        indexOffsetsAlongAxes_[2], indexOffsetAlongZAxis, numberOfCellsAlongZAxis);
     }
   }
 }
